@@ -158,6 +158,18 @@ Section KeyMelody.
       now rewrite orb_true_r.
   Qed.
 
+  Theorem keymelody_default_label evs :
+    0 <= note_range ->
+    0 <= km_default_label note_range < km_num_classes note_range dists /\
+    decode (km_default_label note_range) evs = Some K_NO_EVENT.
+  Proof.
+    intros Hnr. pose proof (zlen_nonneg dists).
+    unfold km_default_label, km_num_classes, km_k, decode, km_decode, km_rev_enum.
+    rewrite lb_find_spec, K_num_special_2. split; [lia|].
+    destruct ((note_range + 2 <=? note_range) && _) eqn:?; [lia|].
+    destruct (note_range =? note_range + 1) eqn:?; [lia|]. now rewrite Z.eqb_refl.
+  Qed.
+
   Variable bits : Z.
 
   Theorem keymelody_generation_total ls : forall evs,
